@@ -399,6 +399,64 @@ theorem outside_link_untouched (base cur full : PathS) (h : properPrefix base fu
     fixSegs base cur full = none := by
   simp [fixSegs, h]
 
+/-! ### the places outside `<output>/page` that the aliases and the navigation bar point at -/
+
+/-- `|media|` names the place the media directory is put: the alias table of `ford.main` maps `media`
+    to exactly the segments below the output directory that `Documentation.writeout` copies the
+    project's `media_dir` setting to (whatever the source directory is called), and the setting that
+    is copied is `media_dir`.  Two code sites; stated over both generated tables. -/
+theorem alias_media_is_media_copy :
+    (['m', 'e', 'd', 'i', 'a'], mediaDestSeg) ∈ aliasTable ∧
+    (∀ x ∈ aliasTable, x.1 = ['m', 'e', 'd', 'i', 'a'] → x.2 = mediaDestSeg) ∧
+    mediaSrcKey = ['m', 'e', 'd', 'i', 'a', '_', 'd', 'i', 'r'] ∧
+    outDirKey = ['o', 'u', 't', 'p', 'u', 't', '_', 'd', 'i', 'r'] := by
+  decide
+
+/-- `|url|` is the root of the generated documentation (no segment appended), and the predefined
+    aliases are exactly the three documented ones. -/
+theorem alias_url_is_output_root :
+    (['u', 'r', 'l'], []) ∈ aliasTable ∧
+    aliasTable.map (·.1) = [['u', 'r', 'l'], ['m', 'e', 'd', 'i', 'a'], ['p', 'a', 'g', 'e']] := by
+  decide
+
+/-- The predefined aliases are rooted at the same directory that `RelativeLinksTreeProcessor` makes
+    links relative in (`url_path = Path(e)`, `MetaMarkdown(base_url=e)` with the same `e`) - the `base`
+    shared by `aliasText` and `fixAttrib` in `alias_link_correct` - and they are the last layer
+    `aliases` is built from, so no user-defined alias or external project replaces them. -/
+theorem aliases_rooted_at_base_url :
+    aliasRootExpr = mdBaseUrlExpr ∧ aliasLayers.getLast? = some predefinedLayer ∧
+    aliasLayers.count predefinedLayer = 1 := by
+  decide
+
+/-- `|media|` is correct from every nesting depth, for every media directory: whatever the project's
+    media directory contains (any tree `es`, any name of the source directory - the name does not occur),
+    for every file or directory `p` below it and every page `q` at any depth, the link `|media|/<p>` is
+    recognised as internal, rewritten relative to `q`, and followed from `q`'s output directory it arrives
+    at an entry that `Documentation.writeout` has created, of the same kind. -/
+theorem media_link_reaches_copied_file (base : PathS) (q : Node) (es : List Entry) (p : PathS) (d : Bool)
+    (segs : PathS) (ha : (['m', 'e', 'd', 'i', 'a'], segs) ∈ aliasTable)
+    (hp : (p, d) ∈ listAll.listAllL es) (hpl : Plain p) (hb : Plain base) (hq : Plain q.loc) :
+    ∃ r, fixSegs base (pageDir base q) (norm (base ++ segs ++ p)) = some r ∧
+      ∃ o ∈ mediaOutputs (some es), resolveFrom (outDir base q) r = base ++ o.1 ∧ o.2 = d := by
+  have hseg : segs = mediaDestSeg := alias_media_is_media_copy.2.1 _ ha rfl
+  have hne0 : mediaDestSeg ≠ [] := by decide
+  have hne : segs ++ p ≠ [] := by
+    rw [hseg]
+    intro h
+    exact hne0 (List.append_eq_nil_iff.mp h).1
+  obtain ⟨r, hr1, hr2⟩ := alias_link_correct base q _ segs p ha hne hb hpl hq
+  refine ⟨r, hr1, (mediaDestSeg ++ p, d), ?_, ?_, rfl⟩
+  · simp only [mediaOutputs, List.mem_cons, List.mem_map]
+    exact Or.inr ⟨(p, d), hp, rfl⟩
+  · rw [hr2, hseg, List.append_assoc]
+
+/-- The first entry of the navigation bar (the link to the top static page) is correct from every page at
+    every nesting depth: followed from the page's output directory it is the file the top page is written to. -/
+theorem top_nav_link_correct (base : PathS) (top q : Node) (hb : Plain base) (ht : Plain top.path)
+    (hq : Plain q.loc) :
+    resolveFrom (outDir base q) (relpath (nodeUrl base top) (outDir base q)) = outFile base top :=
+  nav_link_correct base top q hb ht hq
+
 /-! ### the project's encoding (and every other per-run argument) reaches every nesting depth -/
 
 /-- Every level of the walk hands all of its per-run arguments to the next one unchanged: in the
